@@ -135,6 +135,7 @@ type Explorer struct {
 	known       map[string]*Term
 	httpReqs    []*value
 	thrB        *thread
+	jsonVals    []value
 	mutexIDs    map[*value]int
 	lockLog     []string
 	cur         int
@@ -623,6 +624,7 @@ func (e *Explorer) resetPath(p []int) {
 	e.pathCovers = nil
 	e.known = map[string]*Term{}
 	e.httpReqs = nil
+	e.jsonVals = nil
 	e.mutexIDs = nil
 	e.lockLog = nil
 	e.lastHTTPStatus = nil
